@@ -137,6 +137,7 @@ struct ScriptFut<T> {
     polls: VecDeque<bool>,
     out: Option<T>,
     pendings: Rc<Cell<u64>>,
+    done: Rc<Cell<bool>>,
 }
 impl<T: Unpin> Future for ScriptFut<T> {
     type Output = Result<T, ()>;
@@ -148,7 +149,10 @@ impl<T: Unpin> Future for ScriptFut<T> {
                 cx.waker().wake_by_ref();
                 Poll::Pending
             }
-            _ => Poll::Ready(Ok(me.out.take().expect("init future polled after completion"))),
+            _ => {
+                me.done.set(true);
+                Poll::Ready(Ok(me.out.take().expect("init future polled after completion")))
+            }
         }
     }
 }
@@ -258,6 +262,8 @@ struct Run {
     /// the source half was polled since the client's last `poll_ready` (LazySinkSource only)
     next_since_ready: bool,
     unreadied_seen: u64,
+    /// the init future has completed
+    fut_done: Rc<Cell<bool>>,
 }
 
 fn make(kind: &str, args: &[&str]) -> Option<Run> {
@@ -273,6 +279,7 @@ fn make(kind: &str, args: &[&str]) -> Option<Run> {
             dspecs.push(DSink::parse(a)?);
         }
     }
+    let fut_done = Rc::new(Cell::new(false));
     let log: Rc<RefCell<Vec<u64>>> = Rc::new(RefCell::new(vec![]));
     let inits = Rc::new(Cell::new(0u64));
     let src_pendings = Rc::new(Cell::new(0u64));
@@ -358,15 +365,16 @@ fn make(kind: &str, args: &[&str]) -> Option<Run> {
             let sink = d(0);
             let inits2 = inits.clone();
             let pend = src_pendings.clone();
+            let fd = fut_done.clone();
             Some(wrap(LazySink::new(move || {
                 inits2.set(inits2.get() + 1);
-                ScriptFut { polls: fut, out: Some(sink), pendings: pend }
+                ScriptFut { polls: fut, out: Some(sink), pendings: pend, done: fd }
             })))
         }
         ("lss", 1) => {
             ds.push(("d0".into(), d(0)));
             let st = ScriptStream { script: stream, pendings: src_pendings.clone() };
-            let f = ScriptFut { polls: fut, out: Some((st, d(0))), pendings: src_pendings.clone() };
+            let f = ScriptFut { polls: fut, out: Some((st, d(0))), pendings: src_pendings.clone(), done: fut_done.clone() };
             let (sink_half, src_half) = LazySinkSource::<_, ScriptStream, DSink, u64, ()>::new(f).split();
             let mut src = Box::pin(src_half);
             next = Some(Box::new(move |cx| src.as_mut().poll_next(cx)));
@@ -376,9 +384,10 @@ fn make(kind: &str, args: &[&str]) -> Option<Run> {
             let st = ScriptStream { script: stream, pendings: src_pendings.clone() };
             let inits2 = inits.clone();
             let pend = src_pendings.clone();
+            let fd = fut_done.clone();
             let mut src = Box::pin(LazySource::new(move || {
                 inits2.set(inits2.get() + 1);
-                ScriptFut { polls: fut, out: Some(st), pendings: pend }
+                ScriptFut { polls: fut, out: Some(st), pendings: pend, done: fd }
             }));
             next = Some(Box::new(move |cx| src.as_mut().poll_next(cx)));
             None
@@ -408,10 +417,16 @@ fn make(kind: &str, args: &[&str]) -> Option<Run> {
         drive_done: false,
         next_since_ready: false,
         unreadied_seen: 0,
+        fut_done,
     })
 }
 
 impl Run {
+    /// LazySink / LazySinkSource / LazySource: has the init future completed?
+    fn src_inited(&self) -> bool {
+        self.fut_done.get()
+    }
+
     fn delta(&mut self) -> String {
         let mut out = String::new();
         for (name, d) in &self.ds {
@@ -545,6 +560,10 @@ impl Run {
                     rec.count("client-sends-unreadied");
                 }
                 let armed = self.client_armed;
+                if self.kind == "lss" && armed && self.next_since_ready {
+                    // the window of findings F4 / F4b: the source half ran between Ready and start_send
+                    rec.count(if self.src_inited() { "lss:send-after-source-poll-init-done" } else { "lss:send-after-source-poll-init-pending" });
+                }
                 self.client_armed = false;
                 self.flushed_clean = false;
                 let r = hv_common::catch(std::panic::AssertUnwindSafe(|| pipe.0.borrow_mut().send(x)));
@@ -570,8 +589,14 @@ impl Run {
                 }
             }
             ["next"] => {
-                let Some(next) = self.next.as_mut() else { return "bad-op".into() };
+                if self.next.is_none() {
+                    return "bad-op".into();
+                }
                 self.next_since_ready = true;
+                if self.kind == "lss" {
+                    rec.count(if self.src_inited() { "lss:next-after-init" } else { "lss:next-before-init-done" });
+                }
+                let next = self.next.as_mut().unwrap();
                 let waker = self.wl.waker(0);
                 let r = hv_common::catch(std::panic::AssertUnwindSafe(|| {
                     let mut cx = Context::from_waker(&waker);
@@ -879,6 +904,39 @@ pub fn generate(args: &Args, rec: &mut Recorder) {
                     run_lines(no, "c14 exhaustive", &ls, rec);
                 }
             }
+        }
+    }
+    // bounded-exhaustive LazySinkSource interleavings: every word of length 5 (thorough: 6) over
+    // {ready, send, next, flush} on both halves, for a few init-future / inner-readiness scripts
+    // (covers every position of a source poll relative to Ready / start_send / initialisation)
+    let heads: &[&str] = if thorough {
+        &["fut=1 stream=7,p,8 1/1/1", "fut=01 stream=p,7 1/1/1", "fut=1 stream=7 01/01/1", "fut=001 stream=7,8 101/1/1"]
+    } else {
+        &["fut=01 stream=p,7 1/1/1", "fut=1 stream=7 01/01/1"]
+    };
+    let wl = if thorough { 6 } else { 5 };
+    for head in heads {
+        for w in 0..4u32.pow(wl) {
+            let mut ls = vec![format!("pipe lss {head}")];
+            let mut item = 0;
+            let mut ww = w;
+            for _ in 0..wl {
+                ls.push(match ww % 4 {
+                    0 => "ready".to_string(),
+                    1 => {
+                        item += 1;
+                        format!("send {item}")
+                    }
+                    2 => "next".to_string(),
+                    _ => "flush".to_string(),
+                });
+                ww /= 4;
+            }
+            for l in ["flush", "flush", "flush", "ready", "ready", "send 9", "flush", "flush", "close"] {
+                ls.push(l.into());
+            }
+            no += 1;
+            run_lines(no, "c14 lss-interleavings", &ls, rec);
         }
     }
     // random
